@@ -168,7 +168,7 @@ theorem stepped_qub (S : Spec n P ψ grad h dom) (hp : ParamOK pr) (hQ : QubMax 
     have hv : qubViolated pr c = false := by
       simpa [hlt] using hacc
     unfold qubViolated fista_qubViolated at hv
-    simp only [decide_eq_false_iff_not, not_lt, gt_iff_lt, eabs_eq_abs] at hv
+    simp only [Bool.not_eq_false', decide_eq_true_eq, eabs_eq_abs] at hv
     have hplen : c.p.length = n := by rw [hc.hp, length_vsub _ _ (by rw [hxh, hx]), hxh]
     have hpfn : toFn c.p = toFn c.xhat - toFn x := by rw [hc.hp, toFn_vsub _ _ (by rw [hxh, hx])]
     rw [hc.hpsih hnf, hc.hpsix hnf, hc.hgTp, hc.hpTp, sqNorm_eq_ipN,
